@@ -4,6 +4,7 @@ package c19
 import (
 	"context"
 	"fmt"
+	"net"
 	"sort"
 	"strings"
 	"sync"
@@ -36,6 +37,9 @@ type Case struct {
 	Route    string   `json:"route"`  // proxy | anthropic-translated | anthropic-passthrough
 	Stream   bool     `json:"stream"` // anthropic only
 	Abort    int      `json:"abort"`  // every n-th request is aborted by the client after the headers (0 = never)
+	// AbortEarly: the aborting clients go away 30 ms after sending their request, while every backend
+	// takes 120 ms before it answers (the attempt is in flight, nothing has come back yet)
+	AbortEarly bool `json:"abort_early,omitempty"`
 }
 
 const model = "vm-c19"
@@ -49,7 +53,15 @@ func getRig(c Case) (*rig.Rig, error) {
 	}}, 3)
 }
 
-func scriptFor(o, id, route string, stream bool) backend.Script {
+func scriptFor(o, id, route string, stream bool, slow ...bool) backend.Script {
+	sc := scriptFor0(o, id, route, stream)
+	if len(slow) > 0 && slow[0] && len(sc.Steps) > 0 && sc.Steps[0].Op == "head" {
+		sc.Steps = append([]backend.Step{{Op: "pause", Ms: 120}}, sc.Steps...)
+	}
+	return sc
+}
+
+func scriptFor0(o, id, route string, stream bool) backend.Script {
 	okBody := backend.OpenAICompletion
 	ct := "application/json"
 	if route == "anthropic-passthrough" {
@@ -169,7 +181,7 @@ func runCase(c Case) []ev.Violation {
 	for i, o := range c.Backends {
 		_ = r.S.RegisterModels(urls[i], model)
 		if o != "refuse" {
-			r.Raw[i].SetScript(scriptFor(o, r.Raw[i].ID, c.Route, c.Stream))
+			r.Raw[i].SetScript(scriptFor(o, r.Raw[i].ID, c.Route, c.Stream, c.AbortEarly))
 		}
 	}
 	before, _ := settle(r, c, urls)
@@ -234,6 +246,19 @@ func runCase(c Case) []ev.Violation {
 				abort := c.Abort > 0 && n%int64(c.Abort) == 0
 				atomic.AddInt64(&started, 1)
 				atomic.AddInt64(&inflight, 1)
+				if abort && c.AbortEarly {
+					// send the request, wait until the attempt is under way, leave before any answer
+					if cn, derr := net.DialTimeout("tcp", r.S.Addr, 5*time.Second); derr == nil {
+						_, _ = cn.Write(req)
+						time.Sleep(30 * time.Millisecond)
+						cn.Close()
+						atomic.AddInt64(&aborted, 1)
+					} else {
+						atomic.AddInt64(&clientErrs, 1)
+					}
+					atomic.AddInt64(&inflight, -1)
+					continue
+				}
 				resp, err := rawclient.DoHooked(r.S.Addr, req, readTimeout+10*time.Second, func(got int) bool { return !abort })
 				atomic.AddInt64(&inflight, -1)
 				switch {
@@ -325,7 +350,7 @@ func runCase(c Case) []ev.Violation {
 			anyFailing = true
 		}
 	}
-	breakerSkips := c.Engine == "olla" && anyFailing && ct > attempts && cf >= ct-attempts
+	breakerSkips := c.Engine == "olla" && (anyFailing || c.AbortEarly) && ct > attempts && cf >= ct-attempts
 	// an attempt cancelled by its client's abort before the backend had read the request is an
 	// attempt Olla made (and records) that no backend saw
 	abortedEarly := ct > attempts && int64(ct-attempts) <= aborted
@@ -351,9 +376,14 @@ func runCase(c Case) []ev.Violation {
 		failing := c.Backends[i] != "ok" && c.Backends[i] != "s500" && c.Backends[i] != "s404"
 		switch {
 		case t == perBackend[u]:
-		case c.Engine == "olla" && failing && t > perBackend[u] && f >= t-perBackend[u]:
+		case c.Engine == "olla" && (failing || c.AbortEarly) && t > perBackend[u] && f >= t-perBackend[u]:
+			// (attempts cut short by client aborts count as failures for the olla breaker too, so with
+			// early aborts even a working endpoint's breaker can open)
 			// the olla engine records an endpoint skipped for its open circuit breaker as a failure without dialling it
 			rec.Class("breaker-skips-recorded-as-failures")
+		case t > perBackend[u] && t-perBackend[u] <= aborted:
+			// attempts cancelled by their client's abort before the backend had read the request
+			rec.Class("attempts-recorded-exceed-backend-view-by-client-aborts")
 		default:
 			bad("endpoint-attempts-not-recorded-once/"+c.Backends[i], "endpoint %d (%s) recorded %d attempts, its backend saw %d: %s", i, c.Backends[i], t, perBackend[u], desc)
 		}
@@ -433,6 +463,7 @@ func genCase(t *rapid.T) Case {
 		Stream:   rapid.Bool().Draw(t, "stream"),
 		Abort:    rapid.SampledFrom([]int{0, 0, 3, 5}).Draw(t, "abort"),
 	}
+	c.AbortEarly = c.Abort > 0 && rapid.Bool().Draw(t, "abortearly")
 	if rapid.IntRange(0, 1).Draw(t, "shape") == 0 {
 		// the interesting shape: a failover-inducing endpoint, a mid-stream failing one and (usually) a working one
 		c.Backends = []string{
@@ -461,7 +492,7 @@ var _ = strings.Join
 
 func TestC19(t *testing.T) {
 	defer rig.StopAll()
-	rec.SetRule("workloads of 1..64 concurrent clients x 1..6 requests through the full stack; every endpoint (<=3) has a fixed scripted outcome {ok, 500, 404, reset mid-body, stall mid-body, close mid-body (short of Content-Length), reset before headers, refuse}; proxy, Anthropic translated and passthrough routes (stream on/off), 3 balancers, 2 engines, optional client aborts. Gauges are sampled during the run and at quiescence; collector (global and per endpoint), engine and translator counters are compared as deltas with the harness's own tally of client observations and backend-side attempts. Sub-check 'inflight': 1..64 simultaneous clients against never-seen endpoints that are dead (refuse / reset before any byte) or hold the request until released; once all requests are parked the gauges must be exact (hold = requests parked there, dead = 0). non-trivial = a failover-inducing backend and a mid-stream failing backend among >=8 concurrent clients; distinct by workload")
+	rec.SetRule("workloads of 1..64 concurrent clients x 1..6 requests through the full stack; every endpoint (<=3) has a fixed scripted outcome {ok, 500, 404, reset mid-body, stall mid-body, close mid-body (short of Content-Length), reset before headers, refuse}; proxy, Anthropic translated and passthrough routes (stream on/off), 3 balancers, 2 engines, optional client aborts (after the response headers, or 30 ms after sending while the backends take 120 ms to answer). Gauges are sampled during the run and at quiescence; collector (global and per endpoint), engine and translator counters are compared as deltas with the harness's own tally of client observations and backend-side attempts. Sub-check 'inflight': 1..64 simultaneous clients against never-seen endpoints that are dead (refuse / reset before any byte) or hold the request until released; once all requests are parked the gauges must be exact (hold = requests parked there, dead = 0). non-trivial = a failover-inducing backend and a mid-stream failing backend among >=8 concurrent clients; distinct by workload")
 	rec.Assume("per-model counters are not recorded anywhere in the request path (RecordModelRequest has no caller), so they are trivially conserved and not judged")
 	if ev.Replay(t, rec, "workload", runCase) || ev.Replay(t, rec, "inflight", runFlight) {
 		return
